@@ -216,4 +216,11 @@ theorem run_ginv (st : St) (ops : List Op) (hI : GInv st) : GInv (run st ops) ‚à
       simp only [Option.getD_some]
       exact ‚ü®h3, h4.trans h2‚ü©
 
+/-- no game yet: balls_per_game `b`, max_players `m`, num_balls_known `k` -/
+def start0 (b m k : Nat) : St := { bpg := b, maxPlayers := m, known := k }
+
+theorem start0_inv (b m k : Nat) : GInv (start0 b m k) := by
+  refine ‚ü®by simp [start0, tr, okFrom], ?_, by simp [start0]‚ü©
+  simp [pcOk, start0, tr, lastOf]
+
 end MpfVerif.Game
